@@ -230,3 +230,243 @@ Proof.
   - left. apply inL_correct. exact E.
   - right. intro H. apply inL_correct in H. congruence.
 Qed.
+
+(** * The lenient language Llen is decidable, too
+    An occurrence of a choice may be an empty match; so when some alternative accepts the
+    empty word, a decomposition into k non-empty occurrences can be padded to any k' >= k. *)
+Definition count_ok_len (mixed : bool) (lo : nat) (hi : option nat) (eps : bool) (k : nat) : bool :=
+  if eps then le_hi_b k hi && (mixed || le_hi_b lo hi) else count_ok mixed lo hi k.
+
+Fixpoint inLlen (mixed : bool) (sp : spec) (w : list pystr) {struct sp} : bool :=
+  match sp with
+  | El n lo hi => is_rep n w && Nat.leb lo (length w) && le_hi_b (length w) hi
+  | Seq items =>
+      (fix seq (l : list spec) (w : list pystr) : bool :=
+         match l with
+         | [] => is_nil w
+         | i :: r => existsb (fun p => if inLlen mixed i (fst p) then seq r (snd p) else false) (splits w)
+         end) items w
+  | Cho alts lo hi =>
+      existsb (count_ok_len mixed lo hi
+                 ((fix alt (l : list spec) (w : list pystr) : bool :=
+                     match l with
+                     | [] => false
+                     | a :: r => inLlen mixed a w || alt r w
+                     end) alts []))
+        ((fix counts (fuel : nat) (w : list pystr) : list nat :=
+            match fuel with
+            | O => []
+            | S f =>
+                match w with
+                | [] => [0]
+                | _ => flat_map (fun p => if negb (is_nil (fst p)) &&
+                                             (fix alt (l : list spec) (w : list pystr) : bool :=
+                                                match l with
+                                                | [] => false
+                                                | a :: r => inLlen mixed a w || alt r w
+                                                end) alts (fst p)
+                                          then map S (counts f (snd p)) else [])
+                                (splits w)
+                end
+            end) (S (length w)) w)
+  end.
+
+Lemma inLlen_Seq mixed items w : inLlen mixed (Seq items) w = seq_dec (inLlen mixed) items w.
+Proof. reflexivity. Qed.
+Lemma inLlen_Cho mixed alts lo hi w :
+  inLlen mixed (Cho alts lo hi) w =
+  existsb (count_ok_len mixed lo hi (alt_dec (inLlen mixed) alts []))
+          (counts (alt_dec (inLlen mixed) alts) (S (length w)) w).
+Proof. reflexivity. Qed.
+
+Definition inLlentop (mixed : bool) (top : option spec) (w : list pystr) : bool :=
+  match top with None => is_nil w | Some sp => inLlen mixed sp w end.
+
+Lemma Ll_El_inv mixed n lo hi w :
+  Llen mixed (El n lo hi) w -> exists k, w = repeat n k /\ lo <= k /\ le_hi k hi.
+Proof. intro H. inversion H; subst. eauto. Qed.
+Lemma Ll_Seq_inv mixed items w :
+  Llen mixed (Seq items) w -> exists ws, LlSeq mixed items ws /\ w = concat ws.
+Proof. intro H. inversion H; subst. eauto. Qed.
+Lemma Ll_Cho_inv mixed alts lo hi w :
+  Llen mixed (Cho alts lo hi) w ->
+  exists ws, LlOccs mixed alts ws /\ (mixed = true \/ lo <= length ws) /\ le_hi (length ws) hi /\ w = concat ws.
+Proof. intro H. inversion H; subst. eauto 6. Qed.
+Lemma LlSeq_cons_inv mixed i items ws0 :
+  LlSeq mixed (i :: items) ws0 -> exists w ws, ws0 = w :: ws /\ Llen mixed i w /\ LlSeq mixed items ws.
+Proof. intro H. inversion H; subst. eauto. Qed.
+Lemma LlSeq_nil_inv mixed ws0 : LlSeq mixed [] ws0 -> ws0 = [].
+Proof. intro H. inversion H; subst. reflexivity. Qed.
+Lemma LlAlt_cons_inv mixed a alts w :
+  LlAlt mixed (a :: alts) w -> Llen mixed a w \/ LlAlt mixed alts w.
+Proof. intro H. inversion H; subst; auto. Qed.
+Lemma LlOccs_Forall mixed alts ws : LlOccs mixed alts ws <-> Forall (LlAlt mixed alts) ws.
+Proof.
+  induction ws as [|w ws IH]; split; intro H; try constructor.
+  - inversion H; subst. assumption.
+  - inversion H; subst. apply IH. assumption.
+  - inversion H; subst. assumption.
+  - inversion H; subst. apply IH. assumption.
+Qed.
+
+(** [counts] for an arbitrary occurrence predicate *)
+Lemma counts_spec_gen (A : list pystr -> Prop) (alt : list pystr -> bool) :
+  (forall w, alt w = true <-> A w) ->
+  forall fuel w k, length w < fuel ->
+  (In k (counts alt fuel w) <->
+   exists ws, Forall (fun x => x <> [] /\ A x) ws /\ w = concat ws /\ length ws = k).
+Proof.
+  intro Halt. induction fuel as [|fu IH]; intros w k Hlen; [lia|].
+  cbn [counts]. destruct w as [|x w].
+  - simpl. split.
+    + intros [<-|[]]. exists []. repeat split. constructor.
+    + intros (ws & H & E & <-). destruct ws as [|w1 ws]; [left; reflexivity|].
+      inversion H as [|? ? [Hne _] _]; subst. simpl in E. symmetry in E.
+      apply app_eq_nil in E as [E _]. congruence.
+  - rewrite in_flat_map. split.
+    + intros ([a b] & Hin & H). simpl fst in H. simpl snd in H.
+      apply splits_spec in Hin.
+      destruct (negb (is_nil a) && alt a) eqn:C; [|contradiction].
+      apply andb_true_iff in C as [C1 C2]. apply negb_true_iff in C1.
+      assert (a <> []) as Hne by (intros ->; discriminate).
+      apply in_map_iff in H as (k' & <- & Hk').
+      apply IH in Hk' as (ws & Lws & -> & <-).
+      * exists (a :: ws). split; [|split; [simpl; symmetry; exact Hin | reflexivity]].
+        constructor; [split; [exact Hne | apply Halt; exact C2] | exact Lws].
+      * assert (length (a ++ b) = length (x :: w)) as E by (rewrite Hin; reflexivity).
+        rewrite app_length in E. destruct a; [congruence|]. simpl in *. lia.
+    + intros (ws & H & E & <-). destruct ws as [|a ws]; [discriminate|].
+      inversion H as [|? ? [Hne HA] Lws]; subst.
+      exists (a, concat ws). split; [apply splits_spec; simpl in E; symmetry; exact E|].
+      simpl fst. simpl snd.
+      assert (negb (is_nil a) && alt a = true) as C.
+      { apply andb_true_iff. split; [destruct a; [congruence | reflexivity] | apply Halt; exact HA]. }
+      rewrite C. change (length (a :: ws)) with (S (length ws)). apply in_map. apply IH.
+      * assert (length (x :: w) = length (a ++ concat ws)) as E' by (rewrite E; reflexivity).
+        rewrite app_length in E'. destruct a; [congruence|]. simpl in *. lia.
+      * exists ws. repeat split. exact Lws.
+Qed.
+
+Lemma concat_repeat_nil {A} n : concat (repeat (@nil A) n) = [].
+Proof. induction n; simpl; auto. Qed.
+
+Definition nonempty_b {A} (x : list A) : bool := negb (is_nil x).
+
+Lemma concat_filter_nonempty {A} (ws : list (list A)) : concat (filter nonempty_b ws) = concat ws.
+Proof.
+  induction ws as [|w ws IH]; simpl; [reflexivity|].
+  destruct w; simpl; [exact IH | rewrite IH; reflexivity].
+Qed.
+
+Lemma filter_length_le {A} (f : A -> bool) l : length (filter f l) <= length l.
+Proof. induction l as [|x l IH]; simpl; [lia|]. destruct (f x); simpl; lia. Qed.
+
+Lemma filter_all {A} (f : A -> bool) l : Forall (fun x => f x = true) l -> filter f l = l.
+Proof.
+  induction l as [|x l IH]; intro H; simpl; [reflexivity|].
+  inversion H; subst. rewrite H2, IH; auto.
+Qed.
+
+Section DecLen.
+  Variable mixed : bool.
+  Variable f : spec -> list pystr -> bool.
+
+  Lemma seq_dec_spec_len : forall items,
+    Forall (fun i => forall w, f i w = true <-> Llen mixed i w) items ->
+    forall w, seq_dec f items w = true <-> exists ws, LlSeq mixed items ws /\ w = concat ws.
+  Proof.
+    induction items as [|i r IH]; intros HF w.
+    - simpl. rewrite is_nil_spec. split.
+      + intros ->. exists []. split; [constructor | reflexivity].
+      + intros (ws & H & ->). apply LlSeq_nil_inv in H. subst ws. reflexivity.
+    - inversion HF as [|? ? Hi Hr]; subst. specialize (IH Hr).
+      cbn [seq_dec]. rewrite existsb_exists. split.
+      + intros ([a b] & Hin & H). simpl in H. apply andb_true_iff in H as [H1 H2].
+        apply splits_spec in Hin. apply Hi in H1. apply IH in H2 as (ws & Lws & ->).
+        exists (a :: ws). split; [constructor; assumption | simpl; symmetry; exact Hin].
+      + intros (ws0 & H & ->). apply LlSeq_cons_inv in H as (a & ws & -> & La & Lws).
+        exists (a, concat ws). split; [apply splits_spec; reflexivity|].
+        simpl. apply andb_true_iff. split; [apply Hi; exact La | apply IH; eauto].
+  Qed.
+
+  Lemma alt_dec_spec_len : forall alts,
+    Forall (fun a => forall w, f a w = true <-> Llen mixed a w) alts ->
+    forall w, alt_dec f alts w = true <-> LlAlt mixed alts w.
+  Proof.
+    induction alts as [|a r IH]; intros HF w.
+    - simpl. split; [discriminate | intro H; inversion H].
+    - inversion HF as [|? ? Ha Hr]; subst. specialize (IH Hr).
+      cbn [alt_dec]. rewrite orb_true_iff, Ha, IH. split.
+      + intros [H|H]; [apply LlAlt_here | apply LlAlt_there]; assumption.
+      + intro H. apply LlAlt_cons_inv in H. exact H.
+  Qed.
+End DecLen.
+
+Theorem inLlen_correct mixed : forall sp w, inLlen mixed sp w = true <-> Llen mixed sp w.
+Proof.
+  induction sp as [n lo hi|items IH|alts lo hi IH] using spec_ind'; intro w.
+  - change (inLlen mixed (El n lo hi) w) with (inL mixed (El n lo hi) w).
+    rewrite inL_El, !andb_true_iff, is_rep_spec, Nat.leb_le, le_hi_b_spec. split.
+    + intros [[E A] B]. rewrite E. apply Ll_El; assumption.
+    + intro H. apply Ll_El_inv in H as (k & -> & A & B). rewrite repeat_length. auto.
+  - rewrite inLlen_Seq, (seq_dec_spec_len mixed _ items IH). split.
+    + intros (ws & H & ->). apply Ll_Seq. exact H.
+    + intro H. apply Ll_Seq_inv in H. exact H.
+  - rewrite inLlen_Cho, existsb_exists.
+    pose proof (alt_dec_spec_len mixed _ alts IH) as Halt.
+    set (alt := alt_dec (inLlen mixed) alts) in *.
+    split.
+    + intros (k & Hin & Hk).
+      apply (counts_spec_gen (LlAlt mixed alts) alt Halt) in Hin; [|lia].
+      destruct Hin as (ws & Hws & -> & <-).
+      assert (Forall (LlAlt mixed alts) ws) as Hws'.
+      { eapply Forall_impl; [|exact Hws]. intros x [_ Hx]. exact Hx. }
+      unfold count_ok_len in Hk. destruct (alt []) eqn:Eeps.
+      * (* pad with empty occurrences *)
+        apply Halt in Eeps. apply andb_true_iff in Hk as [Hk1 Hk2].
+        apply le_hi_b_spec in Hk1. apply orb_true_iff in Hk2.
+        set (k' := if mixed then length ws else Nat.max (length ws) lo).
+        replace (concat ws) with (concat (ws ++ repeat [] (k' - length ws)))
+          by (rewrite concat_app, concat_repeat_nil, app_nil_r; reflexivity).
+        assert (length (ws ++ repeat [] (k' - length ws)) = k') as Elen.
+        { rewrite app_length, repeat_length. subst k'. destruct mixed; lia. }
+        apply Ll_Cho.
+        -- apply LlOccs_Forall. apply Forall_app. split; [exact Hws'|].
+           apply Forall_forall. intros x Hx. apply repeat_spec in Hx. subst x. exact Eeps.
+        -- rewrite Elen. subst k'. destruct mixed; [left; reflexivity | right; lia].
+        -- rewrite Elen. subst k'. destruct Hk2 as [Hm|Hlo].
+           ++ rewrite Hm. exact Hk1.
+           ++ apply le_hi_b_spec in Hlo. destruct mixed; [exact Hk1|].
+              destruct hi as [h|]; simpl in *; [lia | exact I].
+      * apply count_ok_spec in Hk as [A B].
+        apply Ll_Cho; [apply LlOccs_Forall; exact Hws' | exact A | exact B].
+    + intro H. apply Ll_Cho_inv in H as (ws & Lws & A & B & ->).
+      apply LlOccs_Forall in Lws.
+      exists (length (filter nonempty_b ws)). split.
+      * apply (counts_spec_gen (LlAlt mixed alts) alt Halt); [lia|].
+        exists (filter nonempty_b ws). split; [|split; [symmetry; apply concat_filter_nonempty | reflexivity]].
+        apply Forall_forall. intros x Hx. apply filter_In in Hx as [Hx1 Hx2]. split.
+        -- intros ->. discriminate.
+        -- rewrite Forall_forall in Lws. apply Lws. exact Hx1.
+      * unfold count_ok_len. pose proof (filter_length_le nonempty_b ws) as Hle.
+        destruct (alt []) eqn:Eeps.
+        -- apply andb_true_iff. split.
+           ++ apply le_hi_b_spec. destruct hi as [h|]; simpl in *; [lia | exact I].
+           ++ apply orb_true_iff. destruct A as [A|A]; [left; exact A | right].
+              apply le_hi_b_spec. destruct hi as [h|]; simpl in *; [lia | exact I].
+        -- (* no occurrence can be empty *)
+           assert (filter nonempty_b ws = ws) as Efl.
+           { apply filter_all. apply Forall_forall. intros x Hx.
+             destruct x; [|reflexivity]. exfalso.
+             rewrite Forall_forall in Lws. apply Lws in Hx. apply Halt in Hx. congruence. }
+           rewrite Efl. apply count_ok_spec. auto.
+Qed.
+
+(** lenient language of a top-level children section *)
+Definition Llentop (mixed : bool) (top : option spec) (w : list pystr) : Prop :=
+  match top with None => w = [] | Some sp => Llen mixed sp w end.
+
+Corollary inLlentop_correct mixed top w : inLlentop mixed top w = true <-> Llentop mixed top w.
+Proof.
+  destruct top as [sp|]; simpl; [apply inLlen_correct | apply is_nil_spec].
+Qed.
